@@ -485,8 +485,13 @@ theorem break_sem (c : Common) (s : ScanRegs) (x : Ctx κ) (hpos : 1 ≤ c.nextP
 
 theorem RelexOk_state {t : Table} {TT : TLabels} {i : StateId} {sd : StateDef} (h : RelexOk t L TT S = true)
     (hs : t.state? i = some sd) : relexStateOk t S L TT i sd = true := by
-  have := allIdx_get (k := 0) h hs
+  simp only [RelexOk, Bool.and_eq_true] at h
+  have := allIdx_get (k := 0) h.2 hs
   simpa using this
+
+theorem RelexOk_len {t : Table} {TT : TLabels} (h : RelexOk t L TT S = true) : L.length ≤ t.states.length := by
+  simp only [RelexOk, Bool.and_eq_true, decide_eq_true_eq] at h
+  exact h.1
 
 /-- `HeadOk` on a byte-selected arm of a `TagHead` state -/
 theorem head_arm_facts {t : Table} {i : StateId} {sd : StateDef} {ph : Phase} {c : Common} {b : UInt8} {arm : Arm}
